@@ -9,8 +9,8 @@ ID = "C48"
 LEVEL = "exploration"
 NEEDS_EBD = True
 RULE = ("histories on small repositories (overlay O with master M, 1-2 ebuilds inheriting 0-3 eclasses found in O or M) with an "
-        "md5-cache or a flat_hash (mtime) cache: warm the cache, then random edits (ebuild content with same/different mtime, "
-        "ebuild touch, eclass content, eclass touch, eclass removed, eclass moved overlay<->master with identical content, cache "
+        "md5-cache or a flat_hash (mtime) cache: warm the cache, then random edits (ebuild content with same/later/EARLIER mtime, "
+        "ebuild touch forwards/backwards, eclass content, eclass touch, eclass removed, eclass moved overlay<->master with identical content, cache "
         "entry edits: INHERIT dropped, wrong checksum, truncated _eclasses_, entry removed, unrelated files) interleaved with "
         "metadata reads through FRESH repository objects. Oracle per read: daemon regeneration observed (counting proxy on "
         "EbuildProcessor.get_keys) <=> the on-disk entry is invalid by an independent validity model; metadata returned == a "
@@ -26,7 +26,8 @@ ASSUMPTIONS = [
 SHARDS = {"quick": 4, "thorough": 16}
 TIMEOUT = {"quick": 360, "thorough": 1800}
 MIN_EVALS = 60
-REQUIRED_COUNTERS = ("reads", "contract_get_keys_calls", "reads_served_from_cache", "reads_regenerated")
+REQUIRED_COUNTERS = ("reads", "contract_get_keys_calls", "reads_served_from_cache", "reads_regenerated",
+                     "backdated_source_epilogues:flat", "backdated_source_epilogues:md5")
 TECHNIQUE = "runtime monitoring: history of edits/reads on real repos+daemon; regeneration observed vs independent validity model"
 
 ECL_NAMES = ["e1", "e2", "e3"]
@@ -167,12 +168,12 @@ class World:
         return True, "valid"
 
 
-def gen_world(ctx, tag):
+def gen_world(ctx, tag, kind=None):
     from .. import ebd
     rng = ctx.rng
     base = os.path.join(os.environ["VT_SCRATCH"], "w_" + tag)
     shutil.rmtree(base, ignore_errors=True)
-    kind = rng.choice(["md5", "flat"])
+    kind = kind or rng.choice(["md5", "flat"])
     w = World(base, kind, rng)
     ebd.make_repo(w.M, repo_id="m")
     ebd.make_repo(w.O, repo_id="o", masters=("m",))
@@ -207,17 +208,23 @@ def edit(ctx, w, cpvs):
     eb = w.ebuild_path(cpv)
     kinds = ["ebuild-content", "ebuild-content-same-mtime", "ebuild-touch", "eclass-content", "eclass-content-same-mtime",
              "eclass-touch", "eclass-remove", "eclass-move", "entry-drop-INHERIT", "entry-wrong-checksum",
-             "entry-truncate-eclasses", "entry-remove", "unrelated-file", "ebuild-drop-inherit"]
+             "entry-truncate-eclasses", "entry-remove", "unrelated-file", "ebuild-drop-inherit",
+             "ebuild-content-older-mtime", "ebuild-touch-older", "eclass-content-older-mtime", "eclass-touch-older",
+             "entry-wrong-checksum-later"]
     k = rng.choice(kinds)
     w.counter += 1
-    if k in ("ebuild-content", "ebuild-content-same-mtime"):
+    older = lambda st: st.st_mtime - rng.choice([1, 3, 60, 86400, 40000000])  # restored / synced with an earlier timestamp
+    if k in ("ebuild-content", "ebuild-content-same-mtime", "ebuild-content-older-mtime"):
         st = os.stat(eb)
         with open(eb) as f:
             text = f.read()
         text += 'KEYWORDS="~k%d"\n' % w.counter
-        w.write(eb, text, mtime=st.st_mtime if k.endswith("same-mtime") else None)
+        w.write(eb, text, mtime=st.st_mtime if k.endswith("same-mtime") else older(st) if k.endswith("older-mtime") else None)
     elif k == "ebuild-touch":
         t = w.now()
+        os.utime(eb, (t, t))
+    elif k == "ebuild-touch-older":
+        t = older(os.stat(eb))
         os.utime(eb, (t, t))
     elif k == "ebuild-drop-inherit":
         st = os.stat(eb)
@@ -232,13 +239,17 @@ def edit(ctx, w, cpvs):
             # re-create a removed eclass
             w.write(w.eclass_path(rng.choice(["o", "m"]), name), 'IUSE="%s_flag re%d"\n' % (name, w.counter))
             return "eclass-recreate"
-        if k in ("eclass-content", "eclass-content-same-mtime"):
+        if k in ("eclass-content", "eclass-content-same-mtime", "eclass-content-older-mtime"):
             st = os.stat(cur)
             with open(cur) as f:
                 text = f.read()
-            w.write(cur, text + 'IUSE+=" c%d"\n' % w.counter, mtime=st.st_mtime if k.endswith("same-mtime") else None)
+            w.write(cur, text + 'IUSE+=" c%d"\n' % w.counter,
+                    mtime=st.st_mtime if k.endswith("same-mtime") else older(st) if k.endswith("older-mtime") else None)
         elif k == "eclass-touch":
             t = w.now()
+            os.utime(cur, (t, t))
+        elif k == "eclass-touch-older":
+            t = older(os.stat(cur))
             os.utime(cur, (t, t))
         elif k == "eclass-remove":
             os.unlink(cur)
@@ -258,9 +269,10 @@ def edit(ctx, w, cpvs):
             lines = f.read().split("\n")
         if k == "entry-drop-INHERIT":
             lines = [ln for ln in lines if not ln.startswith("INHERIT=")]
-        elif k == "entry-wrong-checksum":
+        elif k in ("entry-wrong-checksum", "entry-wrong-checksum-later"):
             key = "_md5_=" if w.kind == "md5" else "_mtime_="
-            lines = [(key + ("0" * 32 if w.kind == "md5" else "12345")) if ln.startswith(key) else ln for ln in lines]
+            bad = ("0" * 32 if w.kind == "md5" else "12345") if k == "entry-wrong-checksum" else ("f" * 32 if w.kind == "md5" else "1999999999")
+            lines = [(key + bad) if ln.startswith(key) else ln for ln in lines]
         elif k == "entry-truncate-eclasses":
             new = []
             for ln in lines:
@@ -334,9 +346,9 @@ class Observer:
         return self.calls > before, plain(self.meta.get(cpv)), err
 
 
-def one_history(ctx, obs, tag, script=None):
+def one_history(ctx, obs, tag, script=None, kind=None):
     from .. import ebd
-    w, cpvs = gen_world(ctx, tag)
+    w, cpvs = gen_world(ctx, tag, kind)
     rng = ctx.rng
     log = []
     pending = {c: ["initial"] for c in cpvs}
@@ -402,6 +414,39 @@ def one_history(ctx, obs, tag, script=None):
             valid, reason = w.entry_valid(cpv)
             ebd.take_stalls()
             regen, meta, err = obs.read(w, cpv, repo=shared)
+            _judge_read(ctx, w, obs, cpv, valid, reason, regen, meta, err, ebd.take_stalls(), log, pending, 99)
+    # directed epilogue: sources restored with an EARLIER timestamp (rsync/tar/git checkout preserve old mtimes).  Refresh one
+    # package's entry, then change its ebuild (and, when it records one, an eclass) while moving the mtime backwards.
+    if not ctx.out_of_time(50):
+        cpv = rng.choice(cpvs)
+        targets = [("ebuild", w.ebuild_path(cpv))]
+        d = w.parse_entry(cpv) or {}
+        names = [n for n in (d.get("_eclasses_") or "").split("\t")[:: (2 if w.kind == "md5" else 3)] if n and w.resolve_eclass(n)]
+        if names:
+            targets.append(("eclass", w.resolve_eclass(rng.choice(names))))
+        for what, path in targets:
+            valid, reason = w.entry_valid(cpv)
+            ebd.take_stalls()
+            regen, meta, err = obs.read(w, cpv)   # refresh: afterwards the entry records the current state
+            _judge_read(ctx, w, obs, cpv, valid, reason, regen, meta, err, ebd.take_stalls(), log, pending, 99)
+            if not os.path.exists(path):
+                continue
+            st = os.stat(path)
+            with open(path) as f:
+                text = f.read()
+            w.counter += 1
+            back = rng.choice([1, 2, 60, 86400, 40000000])
+            add = ('KEYWORDS="~bk%d"\n' if what == "ebuild" else 'IUSE+=" bk%d"\n') % w.counter
+            w.write(path, text + add, mtime=st.st_mtime - back)
+            k = "%s-content-older-mtime" % what
+            w.all_edits.append(k)
+            log.append(["edit", "%s(epilogue, -%ds)" % (k, back)])
+            for c in cpvs:
+                pending[c].append(k)
+            ctx.count("backdated_source_epilogues:" + w.kind)
+            valid, reason = w.entry_valid(cpv)
+            ebd.take_stalls()
+            regen, meta, err = obs.read(w, cpv)
             _judge_read(ctx, w, obs, cpv, valid, reason, regen, meta, err, ebd.take_stalls(), log, pending, 99)
     shutil.rmtree(w.base, ignore_errors=True)
 
@@ -471,7 +516,7 @@ def run(ctx):
         for i in range(n):
             if ctx.out_of_time(40):
                 break
-            one_history(ctx, obs, "h%d" % i)
+            one_history(ctx, obs, "h%d" % i, kind=("flat", "md5")[i % 2] if i < 2 else None)
             ctx.count("histories")
     finally:
         ebd.shutdown_all()
